@@ -20,7 +20,7 @@ func init() {
 		NotDecided: "full grammar equivalence (quoted commas, escapes inside quoted strings), duplicate directives, unknown extension directives' interplay.",
 		Rules: []Rule{
 			{ID: "C12.1", Desc: "directive names are case-folded", Run: ruleC12_1, MinSites: 1},
-			{ID: "C12.2", Desc: "Cache-Control read through all field lines", Run: func(c *Ctx) { ruleRLIST(c, "C12.2", "Cache-Control") }, MinSites: 2},
+			{ID: "C12.2", Desc: "Cache-Control read through all field lines", Run: func(c *Ctx) { ruleRLIST(c, "C12.2", "Cache-Control") }, MinSites: 1},
 			{ID: "C12.3", Desc: "quoted delta-seconds arguments are decoded", Run: ruleC12_3, MinSites: 1},
 			{ID: "C12.4", Desc: "delta-seconds saturation", Run: func(c *Ctx) { ruleSaturation(c, "C12.4") }, MinSites: 2},
 			{ID: "C12.5", Desc: "empty elements skipped, optional whitespace trimmed", Run: ruleC12_5, MinSites: 2},
@@ -32,16 +32,41 @@ func init() {
 
 // tokenizerTree: functions reachable from both parse functions (the shared tokenizer and splitter).
 func (c *Ctx) tokenizerTree() []*ssa.Function {
-	a := map[*ssa.Function]bool{}
-	for _, f := range c.reachableFrom(c.A.F("parseReq")) {
-		a[f] = true
+	// static calls and lexically nested closures only: dynamic resolution of `yield` would drag in the loop bodies of
+	// every other user of the shared list splitter
+	tree := func(root *ssa.Function) map[*ssa.Function]bool {
+		seen := map[*ssa.Function]bool{}
+		var rec func(f *ssa.Function)
+		rec = func(f *ssa.Function) {
+			if f == nil || seen[f] || !c.P.IsRepoFunc(f) || len(f.Blocks) == 0 {
+				return
+			}
+			seen[f] = true
+			instrsOf(f, func(in ssa.Instruction) {
+				if cc := callOf(in); cc != nil {
+					rec(cc.StaticCallee())
+				}
+				if mc, ok := in.(*ssa.MakeClosure); ok {
+					rec(mc.Fn.(*ssa.Function))
+				}
+				for _, op := range in.Operands(nil) {
+					if af, ok := (*op).(*ssa.Function); ok && af.Parent() != nil {
+						rec(af)
+					}
+				}
+			})
+		}
+		rec(root)
+		return seen
 	}
+	a := tree(c.A.F("parseReq"))
 	var out []*ssa.Function
-	for _, f := range c.reachableFrom(c.A.F("parseResp")) {
+	for f := range tree(c.A.F("parseResp")) {
 		if a[f] && f != c.A.F("parseReq") && f != c.A.F("parseResp") {
 			out = append(out, f)
 		}
 	}
+	sort.Slice(out, func(i, j int) bool { return FuncName(out[i]) < FuncName(out[j]) })
 	return out
 }
 
@@ -378,13 +403,11 @@ func ruleC12_6(c *Ctx) {
 	}
 	callees := func(fn *ssa.Function) []string {
 		set := map[string]bool{}
-		instrsOf(fn, func(in ssa.Instruction) {
-			if ci, ok := in.(ssa.CallInstruction); ok {
-				for _, cal := range c.P.RepoCallees(ci) {
-					set[c.P.ShortName(cal)] = true
-				}
+		for _, g := range c.reachableFrom(fn) {
+			if g != fn {
+				set[c.P.ShortName(g)] = true
 			}
-		})
+		}
 		return sortedKeys(set)
 	}
 	a, b := callees(c.A.F("parseReq")), callees(c.A.F("parseResp"))
@@ -399,7 +422,13 @@ func ruleC12_6(c *Ctx) {
 	// both read the same header field
 	for _, role := range []string{"parseReq", "parseResp"} {
 		fn := c.A.F(role)
-		if headerCallWithKey(fn, "Get", "Cache-Control") || headerCallWithKey(fn, "Values", "Cache-Control") {
+		reads := false
+		for _, g := range c.reachableFrom(fn) {
+			if headerCallWithKey(g, "Get", "Cache-Control") || headerCallWithKey(g, "Values", "Cache-Control") {
+				reads = true
+			}
+		}
+		if reads {
 			c.Pass("C12.6", "reads-cache-control "+role, "the parser reads the Cache-Control field", c.P.ShortName(fn))
 		} else {
 			c.Fail("C12.6", "reads-cache-control "+role, "the parser reads the Cache-Control field", c.P.ShortName(fn)+": does not read Cache-Control")
